@@ -18,7 +18,7 @@ import (
 const (
 	vfTextA   = "steps:\n  - name: a\n    command: echo a\n"
 	vfTextB   = "steps:\n  - name: b\n    command: echo b\n"
-	vfTextNew = "steps:\n  - name: n\n    command: echo new\n"
+	vfTextNew = "steps:\n  - name: fresh\n    command: echo new\n"
 	vfTextBad = "steps: ["
 )
 
